@@ -4,6 +4,7 @@
 import ZvtVerif.Generated
 import ZvtVerif.Spec.Layout
 import ZvtVerif.Proofs.SchemaEq
+import ZvtVerif.Proofs.RefEq
 namespace Zvt.C03
 open Zvt
 
@@ -36,5 +37,64 @@ theorem enums_cover_spec : enumsCovered Spec.enums Generated.enums = true := by 
 
 /-- the translator translated everything it found. -/
 theorem no_translator_problems : Generated.problems = [] := by decide
+
+/-! ### the layout as a theorem: code (model) = reference encoder of the format description
+
+`Ref.encode` (Spec/RefCodec.lean) assembles a packet from a layout table the way the ZVT / Feig specification describes
+the format: class, instruction, APDU length; per field the BMP / TLV number, the length prefix of its style (nothing,
+left zero padding, LLVAR / LLLVAR digits, shortest BER length) and the value (little / big endian, decimal digit
+pairs, hex pairs, code page 437). It is a different function from the model of the Rust serialiser (`encodeCmd`, one
+definition per Rust function). The theorems below say that the two agree on every canonical value — for every
+well-formed layout, hence for the shipped ones — and that the reference bytes decode into exactly the named fields. -/
+
+/-- every layout of the frozen specification table is well-formed. -/
+theorem spec_wf : ∀ s ∈ Spec.shipped, structWf s = true := by decide +kernel
+
+/-- **C03, generic**: for ANY well-formed layout and every canonical value: the bytes assembled by the reference
+encoder from the layout table are the bytes the (model of the) serialiser writes, they decode into exactly that
+value with nothing left over, and for a command whatever follows is handed back. -/
+theorem layout_implemented (s : StructDef) (hwf : structWf s = true) (v : Val) (hc : s.canon v) :
+    ∃ bytes, Ref.encode s v = some bytes ∧ encodeCmd s v = .ok bytes ∧ decodeCmd s bytes = .ok (v, []) ∧
+      (s.ctrl.isSome = true → ∀ x, decodeCmd s (bytes ++ x) = .ok (v, x)) := by
+  obtain ⟨bytes, henc, hdec, hsuf⟩ := packet_roundtrip s hwf v hc
+  exact ⟨bytes, Ref.encode_eq s hwf v hc bytes henc, henc, hdec, hsuf⟩
+
+/-- **C03 for the shipped packets**: every packet type of the specification table is in the source with exactly that
+layout (`shipped_covers_spec`), and for each of them and every canonical value the serialiser's bytes ARE the
+reference bytes: each field at its position, under its number, with its length style and value encoding, inside
+the APDU of the packet's class and instruction; decoding the reference bytes gives back the named fields and
+re-encoding them the identical bytes. -/
+theorem shipped_layout_implemented (s : StructDef) (hs : s ∈ Spec.shipped) (v : Val) (hc : s.canon v) :
+    s ∈ Generated.shipped ∧
+    ∃ bytes, Ref.encode s v = some bytes ∧ encodeCmd s v = .ok bytes ∧ decodeCmd s bytes = .ok (v, []) :=
+  ⟨shipped_covers_spec s hs, by
+    obtain ⟨b, h1, h2, h3, _⟩ := layout_implemented s (spec_wf s hs) v hc
+    exact ⟨b, h1, h2, h3⟩⟩
+
+/-- the reference encoder can only produce what the serialiser produces: if both are defined on a canonical value
+they are equal (restated for use from other files). -/
+theorem reference_bytes_unique (s : StructDef) (hwf : structWf s = true) (v : Val) (hc : s.canon v) (a b : Bytes)
+    (ha : Ref.encode s v = some a) (hb : encodeCmd s v = .ok b) : a = b := by
+  have := Ref.encode_eq s hwf v hc b hb
+  rw [ha] at this; exact Option.some.inj this
+
+/-! non-vacuity: concrete packets of the specification table, evaluated by the kernel — the reference encoder on its
+own produces the captured bytes, and the decoder reads them back. -/
+
+/-- Registration `06 00 06 12 34 56 DE 09 78` from the layout table alone. -/
+example : Ref.encode Spec.packets_Registration (.struct [.num 123456, .num 0xde, .some (.num 978), .none])
+    = some [0x06, 0x00, 0x06, 0x12, 0x34, 0x56, 0xde, 0x09, 0x78] := by decide +kernel
+
+/-- the primitives of the format description on boundary values (kernel-evaluated). -/
+example : Ref.bcd 0 = [] ∧ Ref.bcd 7 = [0x07] ∧ Ref.bcd 978 = [0x09, 0x78] ∧ Ref.bcd 123456 = [0x12, 0x34, 0x56] := by
+  decide +kernel
+example : Ref.lengthPrefix .tlv 127 = some [0x7f] ∧ Ref.lengthPrefix .tlv 128 = some [0x81, 0x80] ∧
+    Ref.lengthPrefix .tlv 256 = some [0x82, 0x01, 0x00] ∧ Ref.lengthPrefix .tlv 65536 = none ∧
+    Ref.lengthPrefix (.llv 2) 7 = some [0xf0, 0xf7] ∧ Ref.lengthPrefix (.llv 3) 120 = some [0xf1, 0xf2, 0xf0] ∧
+    Ref.lengthPrefix (.llv 2) 100 = none ∧
+    Ref.lengthPrefix .adpu 254 = some [0xfe] ∧ Ref.lengthPrefix .adpu 255 = some [0xff, 0xff, 0x00] ∧
+    Ref.lengthPrefix (.fixed 3) 1 = some [0, 0] ∧ Ref.lengthPrefix (.fixed 3) 4 = none := by decide +kernel
+example : Ref.tagBytes 0x1f = none ∧ Ref.tagBytes 0x1f0e = some [0x1f, 0x0e] ∧ Ref.tagBytes 0x2a = some [0x2a] ∧
+    Ref.tagBytes 0x2a00 = none := by decide +kernel
 
 end Zvt.C03
